@@ -40,9 +40,10 @@ Section Interp.
               | Err (XInvalid m) =>
                   if inner && internal_msg m then
                     (* a generator ran out of data inside a cleanup function of a Custom generator function: not a skip
-                       request; it propagates like any other exception of a cleanup function (and rejects the attempt) *)
+                       request; it is remembered on the inner T (and rejects the attempt) without replacing anything *)
                     _ <- mark_dirty ;;
-                    cleanup_loop inner f (Some (XInvalid m))
+                    _ <- note_ood m ;;
+                    cleanup_loop inner f last
                   else
                     (* a skip requested by a cleanup function is honoured when the test case ends; it never replaces a
                        failure in flight (runCleanup).  A cleanup of the outermost T that ran out of data: replay-unfaithful *)
@@ -79,13 +80,15 @@ Section Interp.
         c <- cleanup true ;;                          (* the inner T's cleanup runs before the recover decides *)
         t0 <- get_ts ;;
         match c, r with
-        | Some (XInvalid m), _ =>
-            (* a generator ran out of data inside a cleanup function: the attempt is rejected, whatever the function
-               itself did - unless a non-fatal failure was signalled *)
-            match failed t0 with Some _ => throw (XInvalid m) | None => ret None end
+        | None, Ok v =>
+            (* a generator ran out of data inside a cleanup function after the function returned: the attempt is
+               rejected - unless a non-fatal failure was signalled *)
+            match ood t0 with
+            | Some m => match failed t0 with Some _ => throw (XInvalid m) | None => ret None end
+            | None => ret (Some v)
+            end
         | Some e, Err (XInvalid m) => _ <- (if internal_msg m then mark_dirty else ret tt) ;; throw e
         | Some e, _ => throw e                       (* a panic raised during cleanup wins *)
-        | None, Ok v => ret (Some v)
         | None, Err (XInvalid m) =>
             (* a skip does not undo a non-fatal failure signalled before it *)
             match failed t0 with Some _ => throw (XInvalid m) | None => ret None end
